@@ -4,6 +4,11 @@ Correspondence: histories of `GeminiClient.get` / `upload` / redirect chains and
 operations against scripted loopback TLS peers (harness/sim/client_tlspeer.py), compared step by step
 (outcome kind, both fingerprints of the error, the rows of known_hosts, whether the peer received
 application bytes) with `Misc.runSteps` of the Lean model through the driver's `tofu` line.
+
+Families: `histories` (random histories, 3 hosts x 2 ports, store operations by a separate store object), `configured`
+(client certificate, store operations - also an import that fails part-way, export + import - on the client's OWN store
+object, redirects across host names, look-alike host names with `_` / `%`, HOME isolated: no other pin store may appear),
+`small_scope` (exhaustive).  The pin store is observed by an independent read-only SQLite connection after every step.
 """
 from __future__ import annotations
 
@@ -179,10 +184,12 @@ class Runner:
         return ["err", type(exc).__name__]
 
     async def call(self, client, kind: str, hops: list, content: bytes = b"CONTENT", token: str | None = "TOK", query: str = "",
-                   final: bytes = b"20 text/gemini\r\nhello\n", steps_for=None, mime: str = "text/gemini", path: str = "/hop0"):
+                   final: bytes = b"20 text/gemini\r\nhello\n", steps_for=None, mime: str = "text/gemini", path: str = "/hop0", extra_scripts=()):
         """one client call; hops = [[h, p, cert, patch], …] (a redirect chain when longer than 1).
         `steps_for(i, reply)` gives the byte-level script of hop i (default: read the request line, reply, close).
         A loader patch is process-wide for the duration of the call, so it is honoured on single-hop calls only.
+        `extra_scripts` = [(port index, certificate index, steps), …]: scripts queued BEHIND those of the hops, for connections the
+        call is not expected to make (what a peer would show if the client connected once more).
         Returns (result, url)."""
         T = self.T
         for i, (h, p, cert, _patch) in enumerate(hops):
@@ -193,6 +200,8 @@ class Runner:
             # after a body-less reply the client closes first: wait for that (an abrupt close can turn the reply into a reset)
             tail = [["close"]] if reply[:1] == b"2" else [["read_eof", 2.0], ["close"]]
             steps = steps_for(i, reply) if steps_for else [["read_request", 3.0], ["send", reply]] + tail
+            self.peers[p].push(CERTS[cert], steps)
+        for p, cert, steps in extra_scripts:
             self.peers[p].push(CERTS[cert], steps)
         u = self.url(hops[0][0], hops[0][1], path + query)
         mode = hops[0][3] if len(hops) == 1 else ""
